@@ -106,11 +106,18 @@ func (d *c16Drv) c16bLine(w []string) (string, bool) {
 		owner, u := at(2), at(3)
 		id := d.nextID()
 		c := d.send(u, id, `{"sub":{"id":"`+id+`","topic":"`+tn+`","set":{"sub":{"mode":"`+w[4]+`"}}}}`)
-		res := "MEMBER " + c16Code(c)
+		ok := c != nil && c.Code < 300
+		codes := c16Code(c)
 		if w[5] != "-" {
 			id2 := d.nextID()
 			c2 := d.send(owner, id2, `{"set":{"id":"`+id2+`","topic":"`+tn+`","sub":{"user":"`+d.users[u].UserId()+`","mode":"`+w[5]+`"}}}`)
-			res += "/" + c16Code(c2)
+			// 304: the mode given is already the one asked for
+			ok = ok && c2 != nil && (c2.Code < 300 || c2.Code == 304)
+			codes += "/" + c16Code(c2)
+		}
+		res := "MEMBER ok"
+		if !ok {
+			res = "MEMBER " + codes
 		}
 		side := ""
 		if s, ok := c16bSubRow(tn, d.users[u]); ok {
